@@ -8,6 +8,7 @@ pub mod c10;
 pub mod c11;
 pub mod c12;
 pub mod c13;
+pub mod c14;
 
 pub struct Args {
     pub prop: String,
@@ -44,6 +45,7 @@ pub fn run(args: &Args) -> Shard {
         "C12" => c12::run(args, &mut sh),
         "C11" => c11::run(args, &mut sh),
         "C13" => c13::run(args, &mut sh),
+        "C14" => c14::run(args, &mut sh),
         "DBG" => { let mut a2 = Args { prop: "C03".into(), tier: args.tier.clone(), build: args.build.clone(), seed: args.seed, shard: 0, nshards: 1, replay: None, scale: 1000 }; a2.seed = args.seed; c01_04::debug_mismatch(&a2) }
         p => sh.inconclusive.push(format!("no check implemented for {}", p)),
     }
